@@ -72,6 +72,18 @@ def execute(module, tier, seed=None, decisions=None, preset=None, want_trace=Fal
                     'one callback); last events: %s' % (wall_limit, sim.trace[-3:]))
         except RecursionError as e:
             raise HarnessError('RecursionError inside harness: %r' % (e,))
+        except Exception as e:
+            # An exception that ORIGINATES inside txdbus and escapes through its public API
+            # into the workload (which only makes valid calls) is the library's failure, not
+            # the harness's: report it as a violation.  Anything raised by harness code is
+            # a harness error.
+            tb = traceback.extract_tb(e.__traceback__)
+            origin = tb[-1].filename if tb else ''
+            if os.path.realpath(origin).startswith(os.path.realpath(REPO) + os.sep):
+                viol = (module.PROPERTY + '/api-raised', '%s in %s' % (type(e).__name__, tb[-1].name),
+                        'txdbus raised %r into the workload (%s:%d)' % (e, origin, tb[-1].lineno))
+            else:
+                raise
     finally:
         signal.setitimer(signal.ITIMER_REAL, 0)
         signal.signal(signal.SIGALRM, old)
